@@ -64,6 +64,8 @@ def programs(tier):
     P.append(("reent-unschedule_all", dict(base2, reentrant={("h0", 1): ("unschedule_all",)})))
     P.append(("reent-schedule", dict(init=[S("h0", "w0")], scripts={"w0": ["x", "y"], "w1": ["x"]},
                                      reentrant={("h0", 0): S("h1", "w1")})))
+    P.append(("unsched||sched-same-watch", dict(init=[S("h0", "w0")], scripts={"w0": ["x", "y"]},
+                                                threads=[[("unschedule", "w0")], [S("h1", "w0")]])))
     if tier == "thorough":
         P.append(("1w3h-3events", dict(init=[S("h0", "w0"), S("h1", "w0"), S("h2", "w0")],
                                        scripts={"w0": ["x", "x", "y"]}, threads=[[("remove", "h1", "w0")]])))
